@@ -296,6 +296,9 @@ class EngineC13:
                 if all(pm):
                     pm[0] = 0
                 step["prior_fold"] = pm
+            elif g.random() < 0.35 and step.get("mask") is None:
+                # the solver object used directly (its public solve method), from a model whose weights are not all one
+                step["direct"] = {"weights": [round(g.uniform(0.3, 3.0), 3) for _ in range(rank)]}
         if g.random() < 0.3:
             # another optimizer object of the same class, configured differently, is constructed (and perhaps used)
             # in the same process just before this solve: objects must not share their configuration or state
@@ -788,7 +791,12 @@ class EngineC13:
                         pmask = ttb.tensor(np.array(step["prior_fold"], dtype=float).reshape(x.shape, order="F"))
                         ttb.gcp_opt(data, step["rank"], obj if use_enum else (fh, gh, lb), optimizer, init=ttb.ktensor([f.copy() for f in factors]), mask=pmask, printitn=0)
                         out["prior_done"] = True
-                    M, M0, info = ttb.gcp_opt(data, step["rank"], objective, optimizer, init=init, mask=mask, printitn=0)
+                    if step.get("direct") and mask is None and fault is None and len(step["direct"]["weights"]) == step["rank"]:
+                        M0 = ttb.ktensor([f.copy() for f in factors], np.array(step["direct"]["weights"], dtype=float))
+                        M, info = optimizer.solve(M0.copy(), data, fhw, ghw, lb)
+                        out["direct"] = True
+                    else:
+                        M, M0, info = ttb.gcp_opt(data, step["rank"], objective, optimizer, init=init, mask=mask, printitn=0)
                 out.update(M=M, M0=M0, info=info)
             except Exception as e:  # noqa: BLE001
                 out["error"] = e
